@@ -21,8 +21,10 @@ from mc import tunables
 
 MAX_TOLERATED = tunables.watchdog_max_failures()   # "the tolerated maximum": bellows' MAX_WATCHDOG_FAILURES, not fixed by the property
 PERIOD_SMALL = 3
-OUTCOMES_V4 = ["ok", "silent", "stopped", "invalid"]
-OUTCOMES = ["ok", "silent-counters", "silent-buffers", "stopped", "invalid", "ok-nobuf"]   # ok-nobuf: counters read, the free-buffer value is refused (a successful feed)
+OUTCOMES_V4 = ["ok", "silent", "stopped", "invalid", "reconnect"]
+OUTCOMES = ["ok", "silent-counters", "silent-buffers", "stopped", "invalid", "ok-nobuf", "reconnect"]   # ok-nobuf: counters read, the free-buffer value is refused (a successful feed)
+# "reconnect" is not a keep-alive outcome: ControllerApplication.connect() runs again on the same application object between two
+# feeds (what zigpy does after a restart request).  It is not a successful feed, so the run of failures continues across it.
 INVALID = ("__raw__", 0x58, b"\x36")     # the NCP answers the keep-alive with invalidCommand (reason: unsupported) -- an EZSP error
 CMD_TIMEOUT = tunables.ezsp_cmd_timeout()
 
@@ -41,7 +43,16 @@ class World:
 
         self.t = t
         self.mute = set()
-        ncp = self.ncp
+        self.install(self.ncp)
+        # reference state
+        self.run = 0        # consecutive failures
+        self.ordinal = 0    # feeds so far
+        self.phases = {0}   # possible values of (feeds counted towards the clear period) mod period
+        self.viol = []
+        self.outcomes = OUTCOMES_V4 if self.version == 4 else OUTCOMES
+
+    def install(self, ncp):
+        t = self.t
         ncounters = len(list(t.EmberCounterType))
 
         def counters(a, kind):
@@ -55,11 +66,36 @@ class World:
         ncp.handlers["readCounters"] = lambda a: counters(a, "read")
         ncp.handlers["readAndClearCounters"] = lambda a: counters(a, "clear")
         ncp.handlers["getValue"] = lambda a: None if "buffers" in self.mute else ([t.EzspStatus.ERROR_INVALID_ID, b""] if "nobuf" in self.mute else [t.EzspStatus.SUCCESS, b"\x20"])
-        # reference state
-        self.run = 0        # consecutive failures
-        self.ordinal = 0    # feeds so far
+        ncp.handlers["addEndpoint"] = lambda a: [0]
+
+    def reconnect(self):
+        """ControllerApplication.connect() once more on the same application object: a new EZSP object on a new (simulated) NCP
+        connection; reset, negotiation and configuration write are not what is looked at here and are stubbed."""
+        import bellows.ezsp
+        from mc.env import ezspenv
+
         self.viol = []
-        self.outcomes = OUTCOMES_V4 if self.version == 4 else OUTCOMES
+        ezsp, gw, ncp = ezspenv.make_stack(self.loop, self.version)
+        self.install(ncp)
+
+        async def nothing(*a, **k):
+            return None
+
+        ezsp.connect = nothing
+        ezsp.startup_reset = nothing
+        ezsp.write_config = nothing
+        real = bellows.ezsp.EZSP
+        bellows.ezsp.EZSP = lambda *a, **k: ezsp
+        try:
+            task = self.loop.create_task(self.app.connect())
+            self.loop.run_until_idle(horizon=self.loop.time() + 60.0)
+        finally:
+            bellows.ezsp.EZSP = real
+        if not task.done() or task.exception() is not None or self.app._ezsp is not ezsp:
+            raise explore.InternalError(f"C19 harness: connect() on the simulated stack did not complete: {task!r}")
+        self.ezsp, self.gw, self.ncp = ezsp, gw, ncp
+        # the phase of the periodic read-and-clear may or may not restart with the new connection (not the property's business)
+        self.phases = self.phases | {0}
 
     def enabled(self):
         return [((o,), 0) for o in self.outcomes]
@@ -69,6 +105,8 @@ class World:
 
     def feed(self, outcome):
         t = self.t
+        if outcome == "reconnect":
+            return self.reconnect()
         self.viol = []
         self.mute = set()
         if outcome == "silent":
@@ -132,19 +170,27 @@ class World:
             self.viol.append(f"feed raised {type(exc).__name__}: {exc}")
         # keep-alive commands seen by the NCP
         seen = [name for _, name, _, _ in self.ncp.log[n0:]]
-        first = "readAndClearCounters" if self.ordinal % self.period == 0 else "readCounters"
-        if outcome == "stopped":
-            exp = []
-        elif self.version == 4:
-            exp = ["nop"]
-        else:
-            exp = [first] if outcome in ("silent-counters", "invalid") else [first, "getValue"]
-        if outcome == "stopped" and self.version != 4 and seen == [first]:
-            # the counter read goes through the protocol handler directly and is still sent when EZSP is marked
-            # stopped; the free-buffer read then raises EzspError.  Which of the two commands fails is not the property's business.
-            exp = seen
-        if seen != exp:
-            self.viol.append(f"feed #{self.ordinal} (outcome {outcome}, period {self.period}): NCP saw {seen}, expected {exp}")
+        ok_phases = set()
+        exps = []
+        for ph in sorted(self.phases):
+            first = "readAndClearCounters" if (ph + 1) % self.period == 0 else "readCounters"
+            if outcome == "stopped":
+                exp = []
+            elif self.version == 4:
+                exp = ["nop"]
+            else:
+                exp = [first] if outcome in ("silent-counters", "invalid") else [first, "getValue"]
+            if outcome == "stopped" and self.version != 4 and seen == [first]:
+                # the counter read goes through the protocol handler directly and is still sent when EZSP is marked
+                # stopped; the free-buffer read then raises EzspError.  Which of the two commands fails is not the property's business.
+                exp = seen
+            exps.append(exp)
+            if seen == exp:
+                ok_phases.add((ph + 1) % self.period)
+        if not ok_phases:
+            self.viol.append(f"feed #{self.ordinal} (outcome {outcome}, period {self.period}): NCP saw {seen}, expected {' or '.join(map(str, exps))}")
+            ok_phases = {(ph + 1) % self.period for ph in self.phases}
+        self.phases = ok_phases
         if outcome in ("silent", "silent-counters", "silent-buffers"):
             dt = self.loop.time() - t0
             if abs(dt - CMD_TIMEOUT) > 1e-6:
@@ -168,7 +214,7 @@ class World:
         return False
 
     def canon(self):
-        return (min(self.run, MAX_TOLERATED + 2), self.ordinal % self.period,
+        return (min(self.run, MAX_TOLERATED + 2), tuple(sorted(self.phases)),
                 min(getattr(self.app, "_watchdog_failures", 0), MAX_TOLERATED + 2),
                 getattr(self.app, "_watchdog_feed_counter", 0) % self.period)
 
@@ -189,19 +235,23 @@ def vkey(msg):
     return "C19|" + re.sub(r"\s+", " ", m).strip()[:110]
 
 
-def version_job(args):
-    v, tier = args
+def _worker_init():
     import logging
 
     logging.disable(logging.CRITICAL)
+
+
+def graph_job(args):
+    """Phase 1 (one job per version): ES-BFS to closure, the race at the deadline, the shipped period."""
+    v, tier = args
+    _worker_init()
     import bellows.zigbee.application as A
 
     shipped_period = A.EZSP_COUNTERS_CLEAR_IN_WATCHDOG_PERIODS
-    depth = 6 if tier == "quick" else 7
     viol = []
-    out = {"v": v, "states": 0, "transitions": 0, "stateless": 0, "sigs": set(), "samples": [], "viol": viol, "internal": None}
+    out = {"v": v, "states": 0, "transitions": 0, "stateless": 0, "sigs": set(), "samples": [], "viol": viol, "internal": None, "edges": {}}
     try:
-        edges = {}
+        edges = out["edges"]
         g = explore.esbfs(World, {"version": v}, on_transition=lambda s, l, d: edges.__setitem__((s, tuple(l)), d))
         if not g.closed:
             out["internal"] = "C19 state space did not close"
@@ -211,8 +261,34 @@ def version_job(args):
         outs = OUTCOMES_V4 if v == 4 else OUTCOMES
         for msg, params, hist, label in g.violations:
             viol.append((vkey(msg), f"v{v}: {msg}", {"world": "c19", "version": v, "period": PERIOD_SMALL, "outcomes": [outs[c] for c in hist]}))
+        # the answer lands in the same loop iteration as the command timeout (first feed of a fresh application)
+        w = World({"version": v})
+        w.feed("deadline")
+        for msg in w.viol:
+            viol.append((vkey(msg), f"v{v}: {msg}", {"world": "c19", "version": v, "period": PERIOD_SMALL, "outcomes": ["deadline"]}))
+        w.close()
+        out["stateless"] += 1
+    finally:
+        A.EZSP_COUNTERS_CLEAR_IN_WATCHDOG_PERIODS = shipped_period
+    return out
+
+
+def seq_job(args):
+    """Phase 2 (one job per version and first outcome): every outcome sequence of the stated depth without merging, each step
+    compared with the merged graph; the handler-replacement sequences; the shipped period along 185 feeds."""
+    v, tier, first, edges = args
+    _worker_init()
+    import bellows.zigbee.application as A
+
+    shipped_period = A.EZSP_COUNTERS_CLEAR_IN_WATCHDOG_PERIODS
+    depth = 6 if tier == "quick" else 7
+    viol = []
+    out = {"v": v, "states": 0, "transitions": 0, "stateless": 0, "sigs": set(), "samples": [], "viol": viol, "internal": None}
+    outs = OUTCOMES_V4 if v == 4 else OUTCOMES
+    try:
         d = depth if v == 4 else depth - 1
-        for seq in itertools.product(range(len(outs)), repeat=d):
+        for rest in itertools.product(range(len(outs)), repeat=d - 1):
+            seq = (first,) + rest
             w = World({"version": v})
             trace = []
             for c in seq:
@@ -230,15 +306,9 @@ def version_job(args):
             w.close()
             out["stateless"] += 1
             out["sigs"].add((v, tuple(trace)))
-        # the answer lands in the same loop iteration as the command timeout (first feed of a fresh application)
-        w = World({"version": v})
-        w.feed("deadline")
-        for msg in w.viol:
-            viol.append((vkey(msg), f"v{v}: {msg}", {"world": "c19", "version": v, "period": PERIOD_SMALL, "outcomes": ["deadline"]}))
-        w.close()
-        out["stateless"] += 1
         # the protocol handler is replaced (reset + re-negotiation on the same EZSP object) before feed k of every short sequence
-        for seq in itertools.product(range(len(outs)), repeat=3):
+        for rest in itertools.product(range(len(outs)), repeat=2):
+            seq = (first,) + rest
             for k in range(3):
                 w = World({"version": v})
                 hist = []
@@ -257,15 +327,19 @@ def version_job(args):
                 w.close()
                 out["stateless"] += 1
         if v != 4:
-            for pos in list(range(185)) + ["run"]:
+            positions = [p for p in range(185) if p % len(outs) == first] + (["run", "run+reconnect"] if first == 0 else [])
+            for pos in positions:
                 w = World({"version": v, "period": shipped_period})
                 seq = []
                 for k in range(185):
                     o = "ok"
-                    if pos == "run" and 177 <= k < 182:
+                    if pos in ("run", "run+reconnect") and 177 <= k < 182:
                         o = "silent-counters"
                     elif pos == k:
                         o = ("silent-counters", "stopped", "silent-buffers")[k % 3]
+                    if pos == "run+reconnect" and k == 180:
+                        seq.append("reconnect")
+                        w.feed("reconnect")
                     seq.append(o)
                     w.feed(o)
                     if w.viol:
@@ -283,7 +357,11 @@ def main(tier: str) -> int:
     rep = report.Report("C19", tier, "model_checking")
     versions = [4, 8, 14] if tier == "quick" else [4, 5, 7, 8, 9, 13, 14]
     depth = 6 if tier == "quick" else 7
-    results = sorted(explore.pool().imap_unordered(version_job, [(v, tier) for v in versions], chunksize=1), key=lambda r: r["v"])
+    graphs = sorted(explore.pool().imap_unordered(graph_job, [(v, tier) for v in versions], chunksize=1), key=lambda r: r["v"])
+    jobs = [(g["v"], tier, first, g["edges"]) for g in graphs if not g["internal"]
+            for first in range(len(OUTCOMES_V4 if g["v"] == 4 else OUTCOMES))]
+    parts = sorted(explore.pool().imap_unordered(seq_job, jobs, chunksize=1), key=lambda r: r["v"])
+    results = graphs + parts
     states = transitions = stateless = 0
     sigs = set()
     samples = []
